@@ -93,11 +93,22 @@ namespace
                    .SetReactions(p.procs)
                    .SetNumberOfGridCells(L)
                    .Build();
+    // half of the runs: the JIT solver object existed before (built for another mechanism) and the solver under test is
+    // MOVE-ASSIGNED onto it, as a host model does when it re-configures
+    Rng r2{ seed * 104729 + 3 * L + 1 };
+    Problem decoy = makeProblem(r2);
+    bool move_assigned = seed % 2 == 1;
     auto jit = micm::JitSolverBuilder<micm::JitRosenbrockSolverParameters, L>(micm::JitRosenbrockSolverParameters(params))
-                   .SetSystem(system)
-                   .SetReactions(p.procs)
+                   .SetSystem(move_assigned ? micm::System(micm::SystemParameters{ .gas_phase_ = micm::Phase{ decoy.species } }) : system)
+                   .SetReactions(move_assigned ? decoy.procs : p.procs)
                    .SetNumberOfGridCells(L)
                    .Build();
+    if (move_assigned)
+      jit = micm::JitSolverBuilder<micm::JitRosenbrockSolverParameters, L>(micm::JitRosenbrockSolverParameters(params))
+                .SetSystem(system)
+                .SetReactions(p.procs)
+                .SetNumberOfGridCells(L)
+                .Build();
     auto sc = cpu.GetState();
     auto sj = jit.GetState();
     std::size_t nrx = p.procs.size();
@@ -199,7 +210,15 @@ namespace
     for (std::size_t i = 0; i < p.ns; ++i)
       vmap["s" + std::to_string(i)] = i;
     micm::ProcessSet cpu(p.procs, vmap);
-    micm::JitProcessSet<L> jit(p.procs, vmap);
+    // half of the runs: a process set that was generated for another mechanism and is move-assigned the one under test
+    Rng r2{ seed * 15485863 + 5 * L + 2 };
+    Problem decoy = makeProblem(r2);
+    std::map<std::string, std::size_t> dmap;
+    for (std::size_t i = 0; i < decoy.ns; ++i)
+      dmap[decoy.species[i].name_] = i;
+    micm::JitProcessSet<L> jit = seed % 2 == 1 ? micm::JitProcessSet<L>(decoy.procs, dmap) : micm::JitProcessSet<L>(p.procs, vmap);
+    if (seed % 2 == 1)
+      jit = micm::JitProcessSet<L>(p.procs, vmap);
     std::size_t nrx = p.procs.size();
     VM K(L, nrx, 0.0), Y(L, p.ns, 0.0), Fc(L, p.ns, 0.0), Fj(L, p.ns, 0.0);
     for (std::size_t c = 0; c < L; ++c)
